@@ -114,16 +114,31 @@ func (i *Indexer) initBlocks() error {
 
 func (i *Indexer) Notify(_ context.Context, blk *chain.ExecutedBlock) error {
 	i.mu.Lock()
-	i.insertBlockIntoCache(blk)
+	inWindow := i.insertBlockIntoCache(blk)
 	i.mu.Unlock()
 
+	if !inWindow {
+		return nil
+	}
 	return i.storeBlock(blk)
 }
 
 // insertBlockIntoCache add the given block and its transactions to the
 // cache.
 // assumes the write lock is held
-func (i *Indexer) insertBlockIntoCache(blk *chain.ExecutedBlock) {
+// insertBlockIntoCache returns false iff [blk] is older than the block window
+// and was therefore not inserted.
+func (i *Indexer) insertBlockIntoCache(blk *chain.ExecutedBlock) bool {
+	if i.lastHeight != math.MaxUint64 && blk.Block.Hght < i.lastHeight {
+		// repeated delivery of a block below the latest one: the window does not
+		// move, and a block that already left it is not served again
+		if i.lastHeight-blk.Block.Hght >= i.blockWindow {
+			return false
+		}
+		i.cacheBlock(blk)
+		return true
+	}
+
 	if blk.Block.Hght >= i.blockWindow {
 		lastEvictedHeight := blk.Block.Hght - i.blockWindow
 		if i.lastHeight != math.MaxUint64 && i.lastHeight+1 == blk.Block.Hght {
@@ -140,6 +155,12 @@ func (i *Indexer) insertBlockIntoCache(blk *chain.ExecutedBlock) {
 		}
 	}
 
+	i.cacheBlock(blk)
+	i.lastHeight = blk.Block.Hght
+	return true
+}
+
+func (i *Indexer) cacheBlock(blk *chain.ExecutedBlock) {
 	i.blockIDToHeight[blk.Block.GetID()] = blk.Block.Hght
 	i.blockHeightToBlock[blk.Block.Hght] = blk
 
@@ -149,7 +170,6 @@ func (i *Indexer) insertBlockIntoCache(blk *chain.ExecutedBlock) {
 			index:     idx,
 		}
 	}
-	i.lastHeight = blk.Block.Hght
 }
 
 // evictBlockFromCache removes the block at the given height, if any, and its
